@@ -53,7 +53,7 @@ impl ops::Deref for Host {
 impl cmp::PartialEq for Host {
 	#[inline]
 	fn eq(&self, other: &Host) -> bool {
-		self.as_pct_str() == other.as_pct_str()
+		crate::utils::pct_eq(self.as_pct_str(), other.as_pct_str())
 	}
 }
 
@@ -76,14 +76,14 @@ impl PartialOrd for Host {
 impl Ord for Host {
 	#[inline]
 	fn cmp(&self, other: &Host) -> cmp::Ordering {
-		self.as_pct_str().cmp(other.as_pct_str())
+		crate::utils::pct_cmp(self.as_pct_str(), other.as_pct_str())
 	}
 }
 
 impl Hash for Host {
 	#[inline]
 	fn hash<H: hash::Hasher>(&self, hasher: &mut H) {
-		self.as_pct_str().hash(hasher)
+		crate::utils::pct_hash(self.as_pct_str(), hasher)
 	}
 }
 
